@@ -336,7 +336,22 @@ def r6(ctx):
     actorfw.check_remote_origin(ctx, "C12.R6")
     from . import gossipin
     gossipin.check(ctx, "C12.R6")      # a broadcast entry is applied with the peer that delivered it as the providing peer
-    ctx.floor("C12.R6", 18)
+    # subscribing through open(OpenOpts::subscribe): the sender is registered whether this open loads the replica or finds it
+    # open already (the open/close cells of C14.R3)
+    from . import C14
+    sub = type(ctx)(ctx.prop, ctx.tier, ctx.facts, ctx.cfg)
+    C14.r3(sub)
+    for o in sub.obligations:
+        if "subscribe=" not in o["key"]:
+            continue
+        o = dict(o)
+        o["key"] = o["key"].replace("C14.R3", "C12.R6")
+        o["rule"] = "C12.R6"
+        ctx.obligations.append(o)
+        if o["status"] != "holds":
+            ctx.violations.append(o)
+    ctx.analysed_bodies |= sub.analysed_bodies
+    ctx.floor("C12.R6", 22)
 
 
 def r7(ctx):
